@@ -34,3 +34,4 @@
 (declare-fun pathDepth (String) Int)         ; number of elements below the root
 (declare-fun upN (String Int) String)        ; k-fold filepath.Dir
 (declare-fun topLevelStmt (Int) Bool)   ; the statement is one of those global type analysis pre-declared (C11)
+(declare-fun codeOf (Int) Int)   ; code pointer of a function value (reflect.Value.Pointer)
